@@ -120,6 +120,7 @@ struct Ghost {
     win_injected: BTreeSet<u64>, // conn ids whose window was injected by `setlink w=` while the link was down
     last_hk: Option<u64>,        // time of the previous housekeeping tick (coverage counter only)
     heard_at: BTreeMap<u64, u64>, // conn id -> time of the last datagram (>= 2 bytes) the harness delivered on that uplink
+    pulled_since: BTreeMap<u64, u64>, // conn id -> time of the op that engaged the link's silence pull (C13, last clause)
     live_at: BTreeMap<u64, u64>,  // conn id -> time of the last datagram that refreshes liveness: non-registration (C09) or REG3
     probe_armed: BTreeSet<u64>,   // conn ids on which a keepalive armed the RTT probe SINCE the link's last reset / sample
     max_cto: u64,                 // largest connection timeout configured so far in this case (>= the 5000 ms default)
@@ -2551,6 +2552,26 @@ impl SysComp {
                 }
                 if pre[i].guard.2 != p.stall_recovery_since_ms && pre[i].guard.1 != 0 {
                     mon.fail("C13", "dwell-moved-between-decisions", format!("link {}: rejoin dwell start {} -> {} by `{}` (no scheduling decision)", c.conn_id, pre[i].guard.2, p.stall_recovery_since_ms, &op[..op.len().min(60)]));
+                }
+            }
+            // C13, last clause: "the silence pull releases only when the uplink is heard from again or disconnects".
+            // Heard = a datagram of two or more bytes was DELIVERED on that uplink since the pull engaged (the harness's
+            // own record, not the link's last_received - a receive ERROR, the reader's empty marker, is not hearing).
+            {
+                let p = c.verif_private();
+                if op.starts_with("setlink") || torn || attempt || regerr_here || !cfg.stall_deselect {
+                    g.pulled_since.remove(&c.conn_id);
+                } else if !pre[i].guard.3 && p.silence_pulled {
+                    g.pulled_since.insert(c.conn_id, now);
+                    mon.count("silence-pull-engaged");
+                } else if pre[i].guard.3 && !p.silence_pulled {
+                    if let Some(t0) = g.pulled_since.remove(&c.conn_id) {
+                        let heard = g.heard_at.get(&c.conn_id).is_some_and(|h| *h >= t0);
+                        mon.count(if heard { "silence-pull-released-heard" } else { "silence-pull-released-otherwise" });
+                        if !heard && c.connected && pre[i].connected {
+                            mon.fail("C13", "pull-released-unheard", format!("link {}: silence pull engaged at {t0}, released by `{}` at {now} although no datagram has been delivered on that uplink since (last one: {:?}), it stayed connected, was not reset and the guard is on", c.conn_id, &op[..op.len().min(60)], g.heard_at.get(&c.conn_id)));
+                        }
+                    }
                 }
             }
             if torn || attempt {
